@@ -269,17 +269,31 @@ DiffFields(post, ideal) == {f \in DOMAIN post : post[f] # ideal[f]}
 
 ---------------------------------------------------------------------------
 (* M: the as-built StateDB semantics.  ms = [s, cache, dirty]; cache[a] = "-" : not loaded *)
-Load(ms, a)  == IF a \notin DOMAIN ms.cache \/ ms.cache[a] # "-" THEN ms ELSE [ms EXCEPT !.cache[a] = ms.s.bank[a]]
+\* orig[a]: the balance the account had when it was loaded (what a journal roll-back restores for an account
+\* that was loaded inside the rolled-back frame: the state object stays in the StateDB)
+Load(ms, a)  == IF a \notin DOMAIN ms.cache \/ ms.cache[a] # "-" THEN ms ELSE [ms EXCEPT !.cache[a] = ms.s.bank[a], !.orig[a] = ms.s.bank[a]]
 Touch(ms, a, x) == LET m1 == Load(ms, a) IN
-                   IF a \notin DOMAIN m1.cache THEN m1
+                   \* (stateObject.AddBalance/SubBalance return at once for a zero amount: nothing is journaled)
+                   IF a \notin DOMAIN m1.cache \/ BigIsZero(x) THEN m1
                    ELSE [m1 EXCEPT !.cache[a] = BigAdd(@, x), !.dirty = @ \cup {a}]
-\* commit every dirty account: the bank balance becomes the cached one, supply absorbs the difference
+\* commit every dirty account: the bank balance becomes the cached one, supply absorbs the difference;
+\* a self-destructed account is deleted by whichever commit comes first - also by the Flush before a
+\* precompile call in the middle of the transaction (its bank balance, whatever it is by then, is burned;
+\* storage, code and nonce go)
 Flush(ms) ==
-    LET d == {a \in ms.dirty : a \in DOMAIN ms.cache /\ ms.cache[a] # "-"}
+    LET dd == ms.dirty \ ms.dead
+        d == {a \in dd : a \in DOMAIN ms.cache /\ ms.cache[a] # "-"}
         delta == FoldSet(LAMBDA a, acc : BigAdd(acc, BigSub(ms.cache[a], ms.s.bank[a])), "0", d)
-    IN [ms EXCEPT !.s.bank = [a \in DOMAIN @ |-> IF a \in d THEN ms.cache[a] ELSE @[a]],
-                  !.s.supply = BigAdd(@, delta),
-                  !.fst = ms.s.storage,      \* storage as written to the store by this flush
+        s1 == [ms.s EXCEPT !.bank = [a \in DOMAIN @ |-> IF a \in d THEN ms.cache[a] ELSE @[a]],
+                           !.supply = BigAdd(@, delta)]
+        burnt == FoldSet(LAMBDA a, acc : BigAdd(acc, s1.bank[a]), "0", ms.dead)
+        s2 == [s1 EXCEPT !.bank = [a \in DOMAIN @ |-> IF a \in ms.dead THEN "0" ELSE @[a]],
+                         !.supply = BigSub(@, burnt),
+                         !.code = [a \in DOMAIN @ |-> IF a \in ms.dead THEN "no" ELSE @[a]],
+                         !.nonce = [a \in DOMAIN @ |-> IF a \in ms.dead THEN "0" ELSE @[a]],
+                         !.storage = [c \in DOMAIN @ |-> IF c \in ms.dead THEN [k \in DOMAIN @[c] |-> IF @[c][k] = 7 THEN 0 ELSE @[c][k]] ELSE @[c]]]
+    IN [ms EXCEPT !.s = s2,
+                  !.fst = s2.storage,      \* storage as written to the store by this flush
                   !.nflush = @ + 1]
 
 \* does the code accept this precompile call? (authorization as written in precompiles/*)
@@ -344,12 +358,13 @@ RECURSIVE MBody(_, _, _, _, _, _, _)
 \* dirty after the roll-back.  (The success flags live in the recorder contract, which is written again
 \* by every later record, so they are always rolled back: values 1 and 2 are flags, 7 is an SSTORE.)
 RolledBack(m0, r) ==
+    LET kept == [a \in DOMAIN m0.cache |-> IF m0.cache[a] # "-" \/ "stale_overwrite" \notin Defects THEN m0.cache[a] ELSE r.ms.orig[a]] IN
     IF "no_cosmos_revert" \in Defects /\ r.ms.nflush # m0.nflush
-    THEN [m0 EXCEPT !.s = [r.ms.s EXCEPT !.storage =
+    THEN [m0 EXCEPT !.cache = kept, !.orig = r.ms.orig, !.s = [r.ms.s EXCEPT !.storage =
                  [cc \in DOMAIN @ |-> IF cc \in m0.dirty THEN m0.s.storage[cc]
                                        ELSE [k \in DOMAIN @[cc] |-> IF r.ms.fst[cc][k] = 7 THEN 7 ELSE m0.s.storage[cc][k]]]],
                       !.fst = r.ms.fst, !.nflush = r.ms.nflush]
-    ELSE m0
+    ELSE [m0 EXCEPT !.cache = kept, !.orig = r.ms.orig]
 
 \* returns [ms, ok]: ok = FALSE when the frame reverted
 MOp(ms, self, o, g, operOf, root) ==
@@ -407,22 +422,14 @@ MBody(ms, self, body, g, operOf, i, root) ==
             ELSE IF ~r.ok /\ o.op \in {"pc", "call", "recall"} /\ o.mode = "bubble" /\ self # g THEN [ms |-> r.ms, ok |-> FALSE]
             ELSE MBody(rec, self, body, g, operOf, i + 1, root)
 
-\* final commit: dirty accounts are written; self-destructed ones are deleted (their bank balance,
-\* whatever it is by then, is burned; storage, code and nonce go)
-FlushFinal(ms) ==
-    LET m1 == Flush([ms EXCEPT !.dirty = @ \ ms.dead])
-        burnt == FoldSet(LAMBDA a, acc : BigAdd(acc, m1.s.bank[a]), "0", ms.dead)
-    IN [m1.s EXCEPT !.bank = [a \in DOMAIN @ |-> IF a \in ms.dead THEN "0" ELSE @[a]],
-                    !.supply = BigSub(@, burnt),
-                    !.code = [a \in DOMAIN @ |-> IF a \in ms.dead THEN "no" ELSE @[a]],
-                    !.nonce = [a \in DOMAIN @ |-> IF a \in ms.dead THEN "0" ELSE @[a]],
-                    !.storage = [c \in DOMAIN @ |-> IF c \in ms.dead THEN [k \in DOMAIN @[c] |-> IF @[c][k] = 7 THEN 0 ELSE @[c][k]] ELSE @[c]]]
+\* final commit
+FlushFinal(ms) == Flush(ms).s
 
 \* the whole transaction as the code executes it
 MStart(pre, feeMax) ==
     LET g == "S"
         s0 == [pre EXCEPT !.bank = Sub(@, g, feeMax), !.mods = Add(@, "feecollector", feeMax), !.nonce[g] = BigAdd(@, "1")]
-    IN [s |-> s0, cache |-> [a \in Accts(s0) |-> "-"], dirty |-> {}, dead |-> {}, fst |-> s0.storage, nflush |-> 0]
+    IN [s |-> s0, cache |-> [a \in Accts(s0) |-> "-"], orig |-> [a \in Accts(s0) |-> "-"], dirty |-> {}, dead |-> {}, fst |-> s0.storage, nflush |-> 0]
 MTx(e) ==
     LET g == "S"
         ms0 == MStart(e.pre, e.res.feeMax)
